@@ -66,11 +66,11 @@ class Cluster:
 
     def _get_distance_matrix_radii_mic(self) -> np.ndarray:
         """Retrieves the distance matrix with subtracted radii for this cluster."""
-        if self._distance_matrix_radii_mic is None:
-            self._distance_matrix_radii_mic = self._distances.dist_matrix_radii_mic[
-                np.ix_(self.indices, self.indices)
-            ]
-        return self._distance_matrix_radii_mic
+        # The indices are rewritten while the clusters are post-processed, so
+        # the sub-matrix is always taken for the current indices.
+        return self._distances.dist_matrix_radii_mic[
+            np.ix_(self.indices, self.indices)
+        ]
 
     def get_cell(self) -> Atoms:
         """Used to fetch the prototypical cell for this cluster if one exists."""
@@ -90,9 +90,14 @@ class Cluster:
         were used during the clustering.
         """
         if self._dimensionality is None:
+            if self._radii is None:
+                radii = "covalent"
+            else:
+                radii = np.asarray(self._radii)[self.indices]
             self._dimensionality = matid.geometry.get_dimensionality(
                 self.get_atoms(),
                 self._bond_threshold,
                 dist_matrix_radii_mic_1x=self._get_distance_matrix_radii_mic(),
+                radii=radii,
             )
         return self._dimensionality
